@@ -9,7 +9,7 @@ From ChiaV.Props Require Import C07.
 Check C07_agree :
   forall run valid_key sig_ok H K, run_oracle_ok run H ->
   forall program refs max_cost gf,
-    max_cost <= COST_MAX -> (g_simple gf = true -> refs = []) ->
+    max_cost <= COST_MAX ->
     run_block_generator run valid_key sig_ok H K program refs max_cost gf <> Err CostExceeded ->
     run_block_generator2 run valid_key sig_ok H K program refs max_cost gf <> Err CostExceeded ->
     ((exists s1, run_block_generator run valid_key sig_ok H K program refs max_cost gf = Ok s1) <->
@@ -21,7 +21,7 @@ Print Assumptions C07_agree.
 Check C07_cost_asymmetry :
   forall run valid_key sig_ok H K, run_oracle_ok run H ->
   forall program refs max_cost gf s2,
-    max_cost <= COST_MAX -> (g_simple gf = true -> refs = []) ->
+    max_cost <= COST_MAX ->
     run_block_generator2 run valid_key sig_ok H K program refs max_cost gf = Ok s2 ->
     run_block_generator run valid_key sig_ok H K program refs max_cost gf = Err CostExceeded \/
     exists s1, run_block_generator run valid_key sig_ok H K program refs max_cost gf = Ok s1 /\ same_summary gf s1 s2.
@@ -54,13 +54,6 @@ Print Assumptions C07_rom_deserializer_is_native_deserializer.
 Check C07_rom_sha256tree_is_tree_hash :
   forall H t, sha256tree H t = th H t.
 Print Assumptions C07_rom_sha256tree_is_tree_hash.
-Check C07_simple_refs_refuted :
-  exists run H, run_oracle_ok run H /\
-  exists vk sig K program refs max_cost gf,
-    g_simple gf = true /\ refs <> [] /\ max_cost <= COST_MAX /\
-    (exists s, run_block_generator run vk sig H K program refs max_cost gf = Ok s) /\
-    (exists e, run_block_generator2 run vk sig H K program refs max_cost gf = Err e /\ e <> CostExceeded).
-Print Assumptions C07_simple_refs_refuted.
 Check C07_interned_cost_refuted :
   exists run H, run_oracle_ok run H /\
   exists vk sig K program refs max_cost gf s1 s2,
@@ -72,7 +65,7 @@ Print Assumptions C07_interned_cost_refuted.
 Check C07_hypotheses_satisfiable :
   exists run H, run_oracle_ok run H /\
   exists vk sig K program refs max_cost gf s1 s2,
-    max_cost <= COST_MAX /\ (g_simple gf = true -> refs = []) /\
+    max_cost <= COST_MAX /\
     run_block_generator run vk sig H K program refs max_cost gf = Ok s1 /\
     run_block_generator2 run vk sig H K program refs max_cost gf = Ok s2 /\
     length (snd (fst s1)) = 1%nat /\ b_cost (fst (fst s2)) < b_cost (fst (fst s1)).
